@@ -76,8 +76,8 @@ func storageRouting(inflows, laterals,  rainfall, evap data.ND1Float64,
 		}
 	}
 	qi := 0.0
-	outflow := 0.0
-	storage := 0.0
+	outflow := prevOutflow
+	storage := s
 	inflow := 0.0
 
 	for i := 0; i < n; i++ {
